@@ -60,6 +60,8 @@ def rules(ctx):
     objective.indicators(ctx, "R1")
     # R5: the values the search compares are the true values of the candidates (rule group shared with C09)
     tour_cache_rules(ctx)
+    from .C09 import cycle_update_rules
+    cycle_update_rules(ctx)     # the maintenance violation the search compares is maintained truthfully as well
     strict_improver(ctx, "R4", PMIN_IMPROVE)
     # every vehicle is tried as provider of a path exchange (the rotation by the last provider only reorders)
     SEI = NEIGH + "::RSSchedParallelNeighborhood::segment_exchange_iterator"
